@@ -280,7 +280,8 @@ def suite_usm(out, tier, seed):
         wdb = [((1, 3, 6, 1, 2, 1, 1, i, 0), ("int", ber.INT, i)) for i in range(1, 6)]
         wag = agent.V3Agent(wdb, auth=(hashname, b"authpass1"))
         full = None
-        wmodes = [None, ("status-unauth", 2), ("status-unauth", 5), ("status-keepdigest", 2), ("flags", 0)] + \
+        wmodes = [None, ("status-unauth", 2), ("status-unauth", 2.0), ("status-unauth", 5), ("report-status", 2), ("report-status", 5),
+                  ("status-keepdigest", 2), ("flags", 0), ("report-plain", None), ("report-plain", 0)] + \
                  [("bit", rnd.randrange(0, 8 * 110)) for _ in range(nflip)]
         for mode in wmodes:
             cnt = {"n": 0}
@@ -294,9 +295,11 @@ def suite_usm(out, tier, seed):
                     return reply
                 return forge(reply, mode, wag)
 
-            async def walk_all(c):
-                return [(str(vb.oid), vb.value.value) async for vb in c.walk(OID("1.3.6.1.2.1.1"))]
-            out.case((hashname, "walk") + tuple(map(str, mode or ("clean",))))
+            lenient = mode is not None and (wmodes.index(mode) % 2 == 1)
+
+            async def walk_all(c, lenient=lenient):
+                return [(str(vb.oid), vb.value.value) async for vb in c.walk(OID("1.3.6.1.2.1.1"), errors="warn" if lenient else "strict")]
+            out.case((hashname, "walk", "lenient" if lenient else "strict") + tuple(map(str, mode or ("clean",))))
             c = Client("127.0.0.1", creds, sender=wmitm)
             signal.alarm(3)
             try:
@@ -343,7 +346,9 @@ def forge(reply, mode, ag):
         eng = arg
     f1 = pdu["f1"]
     if kind == "status-unauth":
-        flags, authp, f1 = 0, b"", arg           # unauthenticated, carrying an agent error status
+        flags, authp, f1 = 0, b"", int(arg)      # unauthenticated, carrying an agent error status
+    elif kind == "report-status":
+        flags, authp, f1, tag = 0, b"", int(arg), ber.REPORT      # an unauthenticated Report carrying an error status
     elif kind == "status-keepdigest":
         f1 = arg                                  # error status changed, the (now wrong) digest kept
     node = ber.build_pdu(tag, pdu["request_id"], f1, pdu["f2"], vbs)
